@@ -134,7 +134,7 @@ func containsDictionaryExpansion(tok string) bool {
 
 func runC05(t *Trace, r *Rng, tier string, _ []string) {
 	runSnapSteps(t, r, tier)
-	nHist, nReq := 4, 40
+	nHist, nReq := 10, 40
 	if tier == "thorough" {
 		nHist, nReq = 40, 120
 	}
@@ -220,6 +220,8 @@ func runC05(t *Trace, r *Rng, tier string, _ []string) {
 			q, ftok := genQuery(r, 3, ids, kinds)
 			if r.Chance(15) { // conjunctions of term-type clauses: scorch intersects their postings segment by segment
 				q, ftok = genConjOfTerms(r, kinds)
+			} else if r.Chance(15) {
+				q, ftok = genConjWithKey(r, kinds)
 			}
 			tok, _ := resolveFuzzy(ftok, true)
 			withScores := r.Chance(60)
